@@ -860,6 +860,35 @@ def check_bounds_map(prog, res, rule='L7'):
                 norm_text(s) for s in branches[(False, False)]])
   # two-sided: rational identity
   stmts = branches[(True, True)]
+
+  class _NameViolations(ast.NodeTransformer):
+    """max(output_min - reduce_min(kernel), 0) / max(reduce_max(kernel) -
+    output_max, 0) written in place are the two violation amounts, whatever
+    local name (if any) holds them"""
+
+    def visit_Call(self, c):
+      self.generic_visit(c)
+      ext = prog.ext_name(fn.module, c.func) or ''
+      if ext == 'tf.maximum' and len(c.args) == 2 and const_value(
+          c.args[1], None) == 0 and isinstance(c.args[0], ast.BinOp) and \
+          isinstance(c.args[0].op, ast.Sub):
+        l, r = c.args[0].left, c.args[0].right
+        def red(e, which):
+          return isinstance(e, ast.Call) and (prog.ext_name(
+              fn.module, e.func) or '') == which and e.args and dotted(
+                  e.args[0]) == 'final_projection'
+        if dotted(l) == 'output_min' and red(r, 'tf.reduce_min'):
+          in_place['min_violation'] += 1
+          return ast.copy_location(ast.Name(id='min_violation',
+                                            ctx=ast.Load()), c)
+        if red(l, 'tf.reduce_max') and dotted(r) == 'output_max':
+          in_place['max_violation'] += 1
+          return ast.copy_location(ast.Name(id='max_violation',
+                                            ctx=ast.Load()), c)
+      return c
+  in_place = {'min_violation': 0, 'max_violation': 0}
+  import copy as _copy
+  stmts = [_NameViolations().visit(_copy.deepcopy(s)) for s in stmts]
   env = {'output_min': Rat.sym('m'), 'output_max': Rat.sym('M'),
          'min_violation': Rat.sym('a'), 'max_violation': Rat.sym('b'),
          'final_projection': Rat.sym('x')}
@@ -984,6 +1013,8 @@ def check_bounds_map(prog, res, rule='L7'):
                      ('min_violation', ('output_min', 'tf.reduce_min'))):
     v = defs.get(nm)
     good = False
+    if v is None and in_place[nm]:
+      good = True      # written in place, recognised by its structure
     if isinstance(v, ast.Call) and prog.ext_name(
         fn.module, v.func) == 'tf.maximum' and const_value(
             v.args[1]) == 0 and isinstance(v.args[0], ast.BinOp) and \
